@@ -172,6 +172,9 @@ func C12(ctx *core.Ctx) int {
 		for _, lay := range faultLayouts {
 			toks := p.Tokens()
 			g := dsl.Gaps(toks, dsl.Pretty)
+			if lay.name == "one line" {
+				g = dsl.Gaps(toks, dsl.OneLine)
+			}
 			g[0] = lay.leading + g[0]
 			accepts = append(accepts, struct{ name, text, kind string }{p.Name + "/" + lay.name, dsl.Join(toks, g), "base program " + familyOf(p.Name)})
 		}
